@@ -1220,6 +1220,9 @@ func (ft *FT) substr(x Term, lo, hi string) Term {
 	u.declFun("substr", "(declare-fun substr (Str Int Int) Str)")
 	u.axiom("(forall ((a Str) (i Int) (j Int)) (! (=> (and (<= 0 i) (<= i j) (<= j (strlen a))) (= (strlen (substr a i j)) (- j i))) :pattern ((substr a i j))))")
 	u.axiom("(forall ((a Str)) (! (= (substr a 0 (strlen a)) a) :pattern ((substr a 0 (strlen a)))))")
+	// a string is its prefix followed by the rest (split at any position)
+	u.declFun("strcat", "(declare-fun strcat (Str Str) Str)")
+	u.axiom("(forall ((a Str) (i Int)) (! (=> (and (<= 0 i) (<= i (strlen a))) (= (strcat (substr a 0 i) (substr a i (strlen a))) a)) :pattern ((substr a 0 i)) :pattern ((substr a i (strlen a)))))")
 	return Term{ft.define("substr", SStr, sx("substr", x.S, lo, hi)), SStr}
 }
 
